@@ -49,7 +49,19 @@ def run(ctx):
         # non-leaf deme on one level while a deeper non-leaf deme needs its flag changed
         refine.refine_batch(ctx, ctx.size(40, 500), salt=57, force=_four_levels, pid=PID, name="trace-refinement(four levels, hibernation)"),
         deep,
+        # NaN is a legal fitness: a sleeping deme must not evaluate (nor change) there either
+        runs.nan_monitor_batch(ctx, PID, ctx.size(60, 600), salt=67, name="traced-runs-monitor-C18(objective with NaN holes, hibernation, NBC generators)", force=_nan_hib),
     ]
+
+
+def _nan_hib(rng):
+    kind = str(rng.choice(["nbc", "custom"]))
+    if kind == "nbc":
+        sprout = {"kind": "nbc", "gen_dist_factor": float(rng.uniform(1, 3)), "trunc_factor": float(rng.choice([0.7, 1.0])), "fil_dist_factor": float(rng.uniform(0.3, 2)), "level_limit": int(rng.integers(2, 5))}
+    else:
+        sprout = {"kind": "custom", "generator": "nbc", "gen_dist_factor": float(rng.uniform(1, 2.5)), "trunc_factor": 1.0, "deme_filters": ["demelimit"], "far_enough": 0.1,
+                  "fil_dist_factor": 1.0, "norm_ord": 2, "check_only_active": False, "deme_limit": 1, "tree_filters": ["levellimit"], "level_limit": int(rng.integers(1, 4))}
+    return {"hibernation": True, "nlev": int(rng.choice([2, 3])), "sprout": sprout}
 
 
 def _four_levels(rng):
